@@ -221,6 +221,8 @@ func c01RunSchedule(r *core.Run, t *c01Template, ops []c01Op, plan lnmodel.PayPl
 	}
 	sc := sched.New(prefix)
 	sc.Pick = pickFn
+	sc.ParkAfter = true
+	sc.Hub = env.Hub
 	env.Hub.SetController(sc)
 	var mu sync.Mutex
 	for i, op := range ops {
@@ -273,8 +275,11 @@ func c01RunSchedule(r *core.Run, t *c01Template, ops []c01Op, plan lnmodel.PayPl
 	out.schedule = sc.Schedule()
 	out.trace = sc.Trace
 	if !ok {
-		if sc.TimedOut {
+		if sc.TimedOut || sc.Deadlock {
 			r.Inconclusive("scheduler watchdog")
+		}
+		if sc.Infeasible {
+			r.Inconclusive("infeasible schedule prefix (non-deterministic enabled set)")
 		}
 		return res, out, false
 	}
@@ -393,7 +398,11 @@ func c01Pairs(r *core.Run) {
 		}
 		var seq int64
 		var mu sync.Mutex
-		n, complete := sched.Explore(16, 20000, func(prefix []string) sched.Result {
+		bound := -1 // thorough: every schedule
+		if quick(r) {
+			bound = 3 // quick: every schedule with at most three preemptions
+		}
+		n, complete := sched.ExploreBounded(16, 60000, bound, func(prefix []string) sched.Result {
 			mu.Lock()
 			seq++
 			id := seq
@@ -413,7 +422,10 @@ func c01Pairs(r *core.Run) {
 			allComplete = false
 		}
 	}
-	r.Extra("pair_enumerations_exhaustive", allComplete)
+	r.Extra("pair_enumerations_exhaustive", allComplete && !quick(r))
+	if quick(r) {
+		r.Extra("schedule_bound", "all schedules with at most 3 preemptions (thorough tier: all schedules); scheduling points: before and after every DB/LN call")
+	}
 	os.RemoveAll(t.dir)
 }
 
